@@ -1,3 +1,4 @@
+import Woodpile.Driver.Unwind
 import Woodpile.Driver.Util
 import Woodpile.Model.NfsVoucher
 
@@ -99,6 +100,12 @@ def step' (d : DSt) (ws : List String) : DSt × List String :=
         | _, _ => (d, ["bad-op"])
       | _, _ => (d, ["bad-op"])
 
-def family : Family := { σ := DSt, init := ⟨init, false⟩, step := step' }
+/-- `unwinding <module call>` (`Driver/Unwind.lean`; the harness child makes the call while its thread
+unwinds): accepted for the calls that are specified not to panic. -/
+def unwindSafe (_ : DSt) : List String → Bool
+  | op :: _ => ["obs", "mobs", "scan", "get", "sr", "unl"].contains op
+  | [] => false
+
+def family : Family := withUnwind { σ := DSt, init := ⟨init, false⟩, step := step' } unwindSafe
 
 end Woodpile.Driver.NfsFam
